@@ -107,6 +107,7 @@ pub struct OpRecord {
     pub faults_fired: usize,
     /// the operation ran on a sampler that was restored from its durable form
     pub on_restored: bool,
+    pub trace: Option<Vec<ctx::Ev>>,
 }
 
 fn current2(env: &Env, cs: &ClientState) -> (Arc<dyn Sampler>, bool) {
@@ -168,6 +169,7 @@ pub fn exec_op(env: &Env, cs: &mut ClientState, op: &Op, record_trace: bool, cap
             cap_hit: false,
             faults_fired: 0,
             on_restored: false,
+            trace: None,
         });
         f.events = total;
         return f;
@@ -264,6 +266,7 @@ pub fn exec_op(env: &Env, cs: &mut ClientState, op: &Op, record_trace: bool, cap
         cap_hit: st.cap_hit,
         faults_fired: st.fired.len(),
         on_restored,
+        trace: st.trace,
     }
 }
 
@@ -311,6 +314,8 @@ pub struct RunReport {
     pub stats: RunStats,
     pub skipped: Option<String>,
     pub sched: SchedSummary,
+    /// (reference trace, run trace) of RunOpts::trace_op
+    pub traces: Option<(Vec<ctx::Ev>, Vec<ctx::Ev>)>,
 }
 
 /// Expected point of a SampleRng: what `rand`'s own Standard distribution yields
@@ -364,6 +369,9 @@ fn strip_meta(o: &Outcome) -> Outcome {
 }
 
 pub struct RunOpts {
+    /// record seam-event traces of this (client, op) in the reference execution
+    /// and in the run (used only to localise a violation, never for the verdict)
+    pub trace_op: Option<(usize, usize)>,
     pub stall_ms: u64,
     pub check_settings_independence: bool,
     pub check_f64_agreement: bool,
@@ -371,7 +379,7 @@ pub struct RunOpts {
 
 impl Default for RunOpts {
     fn default() -> Self {
-        RunOpts { stall_ms: 20_000, check_settings_independence: true, check_f64_agreement: true }
+        RunOpts { trace_op: None, stall_ms: 20_000, check_settings_independence: true, check_f64_agreement: true }
     }
 }
 
@@ -386,11 +394,15 @@ fn fresh_env(spec: &GraphSpec, s: Arc<dyn Sampler>) -> Env {
 
 /// Reference execution of one op on the pristine reference sampler.
 fn reference(spec: &GraphSpec, refs: &Arc<dyn Sampler>, op: &Op) -> OpRecord {
+    reference_t(spec, refs, op, false)
+}
+
+fn reference_t(spec: &GraphSpec, refs: &Arc<dyn Sampler>, op: &Op, trace: bool) -> OpRecord {
     let env = fresh_env(spec, refs.clone());
     let mut cs = ClientState { local: None };
     match op {
-        Op::Repeat { op: inner, .. } => exec_op(&env, &mut cs, inner, false, u64::MAX),
-        _ => exec_op(&env, &mut cs, op, false, u64::MAX),
+        Op::Repeat { op: inner, .. } => exec_op(&env, &mut cs, inner, trace, u64::MAX),
+        _ => exec_op(&env, &mut cs, op, trace, u64::MAX),
     }
 }
 
@@ -418,6 +430,7 @@ pub fn run_scenario(sc: &Scenario, opts: &RunOpts) -> RunReport {
     let dim = refs.dimension();
 
     let mut ref_out: Vec<Vec<OpRecord>> = Vec::new();
+    let mut ref_trace: Option<Vec<ctx::Ev>> = None;
     for (ci, c) in sc.clients.iter().enumerate() {
         let mut v = Vec::new();
         for (oi, op) in c.ops.iter().enumerate() {
@@ -425,7 +438,11 @@ pub fn run_scenario(sc: &Scenario, opts: &RunOpts) -> RunReport {
                 Op::Repeat { op, .. } => &**op,
                 o => o,
             };
-            let mut r = reference(&sc.spec, &refs, op);
+            let want_trace = opts.trace_op == Some((ci, oi));
+            let mut r = reference_t(&sc.spec, &refs, op, want_trace);
+            if want_trace {
+                ref_trace = r.trace.take();
+            }
             // model-level expectations that do not come from running the op
             match inner {
                 Op::Build | Op::ImageCheck | Op::Restart { .. } => {
@@ -565,6 +582,7 @@ pub fn run_scenario(sc: &Scenario, opts: &RunOpts) -> RunReport {
                 stats,
                 skipped: None,
                 sched: SchedSummary::default(),
+                traces: None,
             };
         }
     };
@@ -598,6 +616,7 @@ pub fn run_scenario(sc: &Scenario, opts: &RunOpts) -> RunReport {
         let plan = c.plan.clone();
         let caps: Vec<u64> = ref_out[tid].iter().map(|r| r.events.saturating_mul(4).saturating_add(64)).collect();
         let active = active_calls.clone();
+        let trace_op = opts.trace_op;
         let h = std::thread::Builder::new()
             .name(format!("simcaller-{}", tid))
             .stack_size(4 << 20)
@@ -615,7 +634,7 @@ pub fn run_scenario(sc: &Scenario, opts: &RunOpts) -> RunReport {
                         midcall += 1;
                     }
                     active.fetch_add(1, SeqCst);
-                    let mut r = exec_op(&env, &mut cs, op, false, caps[i]);
+                    let mut r = exec_op(&env, &mut cs, op, trace_op == Some((tid, i)), caps[i]);
                     active.fetch_sub(1, SeqCst);
                     r.invoke = inv;
                     r.ret = sched.stamp();
@@ -768,6 +787,10 @@ pub fn run_scenario(sc: &Scenario, opts: &RunOpts) -> RunReport {
     }
     digest = mix(digest, hash_u64s(&[stats.events, stats.hash_keys, stats.rng_draws]));
 
+    let traces = match (ref_trace, opts.trace_op) {
+        (Some(rt), Some((c, o))) => all.get(c).and_then(|v| v.get(o)).and_then(|r| r.trace.clone()).map(|t| (rt, t)),
+        _ => None,
+    };
     RunReport {
         violations,
         harness_errors,
@@ -777,6 +800,7 @@ pub fn run_scenario(sc: &Scenario, opts: &RunOpts) -> RunReport {
         stats,
         skipped: None,
         sched: ss,
+        traces,
     }
 }
 
@@ -790,5 +814,6 @@ fn skipped(why: String) -> RunReport {
         stats: RunStats::default(),
         skipped: Some(why),
         sched: SchedSummary::default(),
+        traces: None,
     }
 }
